@@ -520,6 +520,9 @@ func Run(cfg *common.Config) (*common.Report, error) {
 	for i, doc := range regressionDocs() {
 		d.docCase(doc, []int{0, 2}[i%2]) // hashers under which the empty string has no hash
 	}
+	for _, ds := range regressionRaws() {
+		d.rawCase(ds, "shared-blank-array", 0, true)
+	}
 	nValid := cfg.Pick(150, 4000)
 	for i := 0; i < nValid; i++ {
 		doc := g.Valid(1 + cfg.Rng.Intn(3))
